@@ -152,7 +152,13 @@ def apply(w, op):
     unchanged = False
     got = None
     try:
-        if k == "create":
+        if k == "restart":
+            # orderly restart: a NEW Datastore object over the same file -- no handle is registered in it and
+            # the driver's old handles are gone (seeded: delete_bucket assumed a registered handle; a lookup
+            # registered handles for all listed buckets under the looked-up id)
+            w.ds = ds = S.reopen(ds, flush=True)
+            w.stale = {}
+        elif k == "create":
             h = ds.create_bucket(b, **variant(b, op[2]))
             w.stale.setdefault(b, h)
             model[b] = {"meta": model_meta(b, op[2]), "events": []}
@@ -179,7 +185,8 @@ def apply(w, op):
                 want_exc, unchanged = "KeyError", True
             else:
                 unchanged = True
-            ds[b]
+            h = ds[b]
+            w.stale.setdefault(b, h)  # (only new after a restart: the first handle seen in this process)
         elif k == "describe":
             unchanged = True
             if not present:
@@ -213,6 +220,8 @@ def apply(w, op):
 def enabled(w, subsets, extend):
     """-> list of (op, extends_state)"""
     ops = []
+    if _G["cfg"].get("restart") and getattr(w.ds, "_verif_backend", "memory") != "memory" and (w.stale or getattr(w.ds, "bucket_instances", None)):
+        ops.append((("restart", None), True))
     for b in _G["buckets"]:
         present = b in w.model
         limited = b != A1
@@ -237,11 +246,15 @@ def enabled(w, subsets, extend):
             # new state from which delete / re-create must still behave (seeded stale read-side cache)
             ops.append((("lookup", b), True))
             ops.append((("describe", b, "fresh"), True))
-            ops.append((("describe", b, "stale"), True))
-            ops.append((("read", b, "stale"), True))
+            if b in w.stale:
+                ops.append((("describe", b, "stale"), True))
+                ops.append((("read", b, "stale"), True))
+            else:
+                ops.append((("read", b, "fresh"), True))
             if len(w.model[b]["events"]) < 1:
                 ops.append((("insert", b, "fresh"), True))
-                ops.append((("insert", b, "stale"), True))
+                if b in w.stale:
+                    ops.append((("insert", b, "stale"), True))
             if not limited:
                 for s in subsets:
                     ops.append((("update", b, s), s in extend))
@@ -279,6 +292,7 @@ def check_op(w, op):
     raw0 = raw(ds)
     w.described = w.read_events = w.read_count = None
     want, got, unchanged = apply(w, op)
+    ds = w.ds  # (a restart replaces the Datastore object)
     # canonical form of the state a replay of (history + op) reconstructs: taken BEFORE the
     # observation below, whose reads may themselves change hidden state (flush, fill caches)
     w.canon_after = (S.canon_full(ds, False), tuple(sorted(w.stale)), handle_state(w))
@@ -358,6 +372,16 @@ def run(ctx):
         agg, seen = engine.bfs(ctx, _expand, [()], label=backend, max_states=20000, cap_s=1800 if ctx.thorough else 240)
         per[backend] = {"states": agg.states, "transitions": agg.transitions, "max_depth": agg.max_depth}
         _merge(total, agg)
+    # restarts (a new Datastore object over the same file, nothing registered in it) are explored in a
+    # configuration of their own with one operated bucket beside the passive one, so that the main
+    # search keeps its size
+    for backend in ("sqlite", "peewee"):
+        _G["buckets"] = (A1,)
+        _G["cfg"] = {"backend": backend, "subsets": [("type",), ("type", "data")], "restart": True}
+        agg, seen = engine.bfs(ctx, _expand, [()], label=backend + "/restart", max_states=20000, cap_s=1800 if ctx.thorough else 240)
+        per[backend + "/restart"] = {"states": agg.states, "transitions": agg.transitions, "max_depth": agg.max_depth}
+        _merge(total, agg)
+    _G["buckets"] = (A1, B2)
     total.extra["per_backend"] = per
     ctx.selfcheck(total.nontrivial > 0, "no transition after a delete")
     for need in ("create", "delete", "update", "lookup_absent", "describe_absent", "update_absent", "insert"):
